@@ -53,7 +53,7 @@ def _inputs(ctx, mod):
     pool = [("build", "b_plain"), ("build", "b_styled"), ("build", "b_unclosed"), ("build", "b_px"), ("build", "b_multi"),
             ("DFXP", "dfxp2"), ("SAMI", "sami4"), ("WebVTT", "vtt2"), ("SCC", "scc2"),
             ("build", "b_textalign"), ("SAMI", "sami_ta"), ("DFXP", "dfxp_ta"), ("build", "b_nodelayouts"),
-            ("build", "b_empty"), ("DFXP", "dfxp_sloppy")]
+            ("build", "b_empty"), ("DFXP", "dfxp_sloppy"), ("build", "b_unclosed_px"), ("build", "b_richspan")]
 
     def mk(item):
         return {"op": "build", "desc": item[1]} if item[0] == "build" else \
